@@ -290,6 +290,43 @@ class Real:
             o = o.cells[name]
         o.allow_none = value
 
+    # -- raw operations (arguments passed through as they are; used for invalid requests) ---------
+    def op_new_space_raw(self, parent, name, bases=None, formula=None):
+        p = self.space(parent)
+        kw = {}
+        if bases:
+            kw["bases"] = [self.space(b) for b in bases]
+        if formula is not None:
+            kw["formula"] = formula
+        p.new_space(name, **kw)
+
+    def op_new_cells_raw(self, path, name, formula):
+        self.space(path).new_cells(name, formula)
+
+    def op_set_formula_raw(self, path, text):
+        self.space(path).formula = text
+
+    def op_set_cells_formula_raw(self, path, name, text):
+        self.space(path).cells[name].formula = text
+
+    def op_set_value_raw(self, sid, name, keysrc, valuesrc):
+        c = self.ctx(tup(sid)).cells[name]
+        c.__setitem__(py_value(keysrc), py_value(valuesrc))
+
+    def op_del_member(self, path, name):
+        o = self.space(path) if path else self.m
+        delattr(o, name)
+
+    def op_rename_model(self, name):
+        self.m.rename(name)
+
+    def op_set_ref_raw(self, path, name, valuesrc, mode):
+        o = self.space(path) if path else self.m
+        if mode is None:
+            setattr(o, name, py_value(valuesrc))
+        else:
+            o.set_ref(name, py_value(valuesrc), mode)
+
     def op_set_doc(self, path, name, text):
         o = self.space(path) if path else self.m
         if name is not None:
